@@ -69,6 +69,15 @@ def aliases(target, rng):
     return out
 
 
+def listing_names(verb, data):
+    """names only: time stamps of a re-populated tree differ from run to run"""
+    out = []
+    for ln in (data or b"").split(b"\r\n"):
+        if ln:
+            out.append(ln.split(b"; ", 1)[-1] if verb == "MLSD" else ln.rsplit(b" ", 1)[-1])
+    return sorted(out)
+
+
 def make_users(table):
     perms = [aioftp.Permission(p, readable=r, writable=w) for p, r, w in table]
     return [aioftp.User("t", "pw", base_path="/", permissions=perms), aioftp.User("c", "pw", base_path="/")]
@@ -90,7 +99,7 @@ async def wire(net, hyg, plan):
         state[0].content = []
         memory_populate(state, TREE)
 
-    async def attempt(user, verb, arg, cwd):
+    async def attempt(user, verb, arg, cwd, moved=None):
         reset()
         s = Session(net, 2121, name=user)
         await s.run([["connect"], ["login", user, "pw"]])
@@ -102,7 +111,10 @@ async def wire(net, hyg, plan):
         before = len(s.outcomes)
         tree0 = w.tree()
         if verb in ("LIST", "MLSD", "RETR", "STOR", "APPE"):
-            await s.run([["epsv"], ["xfer", verb, arg, 7]])
+            if moved:
+                await s.run([["epsv"], ["xfer", verb, arg, 7, "after", 0, None, 0, ["CWD " + moved]]])
+            else:
+                await s.run([["epsv"], ["xfer", verb, arg, 7]])
             codes = s.outcomes[before + 1:]
         elif verb == "RNTO":
             await s.run([["cmd", "RNFR /top.txt"], ["cmd", "RNTO " + arg]])
@@ -121,7 +133,7 @@ async def wire(net, hyg, plan):
         s.peer.cut("fin")
         await net.settle()
         return {"codes": codes, "pwd": pwd, "changed": tree1 != tree0, "tree": tree1,
-                "cwd0": cwd or "/"}
+                "cwd0": cwd or "/", "downloads": [[d[0], d[2] if d[0] == "RETR" else listing_names(d[0], d[2])] for d in s.downloads]}
 
     try:
         probes = plan["probes"]
@@ -169,6 +181,23 @@ async def wire(net, hyg, plan):
                     if got["codes"] != ctl["codes"] or got["tree"] != ctl["tree"] or got["pwd"] != ctl["pwd"]:
                         viol.append({"key": f"allowed-but-differs-from-control:{verb}:{label}",
                                      "msg": f"{where}: got {got['codes']} pwd={got['pwd']}, control {ctl['codes']} pwd={ctl['pwd']}"})
+                if (allowed and label == "relative" and verb in ("LIST", "MLSD", "RETR", "STOR", "APPE") and got["codes"]
+                        and got["codes"][-1][:1] == ["150"]):
+                    # the working directory changes between the mark and the data connection: the transfer is still the one
+                    # that was authorised - same result as without the move (apart from the final cwd)
+                    dirs = [p for p in sorted(TREE) if TREE[p] == DIR and p != (cwd or "/") and oracle(table, p) not in (None,)
+                            and oracle(table, p)[0]]
+                    if dirs:
+                        dest = rng.choice(dirs)
+                        mv = await attempt("t", verb, arg, cwd, moved=dest)
+                        mon["moved_between_mark_and_data"] = mon.get("moved_between_mark_and_data", 0) + 1
+                        if mv is not None:
+                            plain = [[c for c in step if not c.startswith("b:")] for step in mv["codes"]]
+                            if plain != got["codes"] or mv["tree"] != got["tree"] or mv["downloads"] != got["downloads"]:
+                                viol.append({"key": f"authorised-location-not-the-one-used:{verb}",
+                                             "msg": f"{where}; CWD {dest} between the 150 mark and the data connection: replies "
+                                                    f"{mv['codes']} vs {got['codes']} without the move, same tree: {mv['tree'] == got['tree']}, "
+                                                    f"same data: {mv['downloads'] == got['downloads']}"})
                 if len(sample) < 6:
                     sample.append({"verb": verb, "target": target, "alias": arg, "cwd": cwd, "allowed": allowed, "codes": got["codes"]})
         await w.stop()
